@@ -9,8 +9,8 @@ m = {
     "version": 1,
     "setup_cmd": "python3 /verif/setup.py",
     "hooks": {
-        "guard": "cargo feature `verif-hooks` (off by default; test builds only) and cfg(kani) (set only by cargo-kani)",
-        "enable": "cargo test --offline --lib --features mocks,tls,tls-ring,sni,verif-hooks with VERIF_DIR=/verif (replay tests); cargo kani sets cfg(kani). Engine V (Verus) needs no hook: it reads the sources.",
+        "guard": "cargo features `verif-hooks` (off by default; test builds only: include!s of the replay tests) and `verif-kani` (off by default; enabled only by the Kani engine: loop-free harnesses)",
+        "enable": "cargo test --offline --lib --features mocks,tls,tls-ring,sni,verif-hooks with VERIF_DIR=/verif (replay tests); cargo kani --features verif-kani (engine K). Engine V (Verus) needs no hook: it reads the sources.",
         "baseline_off_cmd": "cd /repo && cargo nextest run --workspace --no-fail-fast --offline || cargo test --workspace --no-fail-fast --offline",
         "source_commits": hooks_commits,
         "add_only": True,
